@@ -168,6 +168,14 @@ static int32_t tls13ParseAndHandleAlert(ssl_t *ssl,
         unsigned char *alertDescription);
 static int32_t tls13ClientActivateHsReadKeys(ssl_t *ssl);
 
+/* Largest handshake message accepted (and reassembled) by the TLS 1.3
+   decoder; same limit as the pre-1.3 decoder. */
+#ifdef SSL_DEFAULT_IN_HS_SIZE
+# define TLS_1_3_MAX_HS_MSG_LEN SSL_DEFAULT_IN_HS_SIZE
+#else
+# define TLS_1_3_MAX_HS_MSG_LEN 65536
+#endif
+
 /** Decode incoming peer data, update state machine and encode
     the response.
 
@@ -428,11 +436,12 @@ parse_next_record_header:
     /* Deal with the decrypted message. */
     if (innerType == SSL_RECORD_TYPE_HANDSHAKE)
     {
-	unsigned char *p_start = p;
+	unsigned char *p_start;
         end = p + ptLen;
         /* Parse handshake messages until buffer runs out */
         while (p != end)
         {
+            p_start = p;
             rc = tls13ParseHandshakeMessage(ssl,
                     &p, end);
             if (rc < 0)
@@ -864,6 +873,20 @@ static int32_t tls13ParseHandshakeMessage(ssl_t *ssl,
     rc = psParseTlsHandshakeHeader(&pb, &type, &hsMsgLen);
     if (rc == 0)
     {
+        /* Fewer than TLS_HS_HDR_LEN bytes left: a handshake header split
+           across records is not supported (same as the pre-1.3 decoder). */
+        psTraceErrr("Truncated handshake message header\n");
+        ssl->err = SSL_ALERT_DECODE_ERROR;
+        rc = MATRIXSSL_ERROR;
+        goto exit;
+    }
+    if (hsMsgLen > TLS_1_3_MAX_HS_MSG_LEN)
+    {
+        /* Do not let the peer make us allocate an arbitrarily large
+           reassembly buffer. */
+        psTraceErrr("Maximum handshake message length exceeded\n");
+        ssl->err = SSL_ALERT_DECODE_ERROR;
+        rc = MATRIXSSL_ERROR;
         goto exit;
     }
 # ifdef DEBUG_TLS_1_3_DECODE
